@@ -3,7 +3,7 @@
    statements. *)
 From Coq Require Import ZArith NArith List Bool Lia Arith String.
 Import ListNotations.
-From Verif Require Import Lib.Corr Lib.Crash_Store Lib.Crash_Block Lib.Crash_BlockFacts Lib.Crash_BlockProgs.
+From Verif Require Import Lib.Corr Lib.Crash_Store Lib.Crash_Block Lib.Crash_BlockFacts Lib.Crash_BlockProgs Lib.Crash_BlockRace.
 From Verif Require Import Gen.C28 Model.C28.
 
 (* ---- tie T: the orders computed from the source are the ones the lemmas are about ---- *)
@@ -48,10 +48,11 @@ Definition final_clause (st : state) (a : action) (ok : bool) (post : bucket) : 
       ok = true ->
       same_content (match bget (fst st) (id, FMeta) with Some o => o | None => Blob 0 end)
                    (bget post (id, FMeta)) = true
+  | ARepDel id _ _ => ok = true -> bhas post (id, FMeta) = true
   end.
 
 Lemma action_sound U st a l ok :
-  wf_univ U -> sinv U st -> action_ops U st a = Some (l, ok) ->
+  wf_univ U -> sinv U st -> action_safe st a = true -> action_ops U st a = Some (l, ok) ->
   let b := side_get st (action_side a) in
   guarded key obj key_eqb key_ltb (op_guard U) b l
   /\ final_clause st a ok (bapply_ops b l)
@@ -61,7 +62,7 @@ Lemma action_sound U st a l ok :
      | _ => True
      end.
 Proof.
-  intros Hwf Hst Ha. destruct a as [s id order cid|s id order|s id sz|id]; simpl in *.
+  intros Hwf Hst Hsafe Ha. destruct a as [s id order cid|s id order|s id sz|id|id sched order]; simpl in *.
   - (* upload *)
     rewrite upload_phases_std in Ha. destruct (ublock U id) as [bl|] eqn:Hu.
     + destruct (upload_ops std_upload U id order cid (b_lbl bl)) as [l0|] eqn:Hl; [|discriminate].
@@ -84,13 +85,21 @@ Proof.
       * inversion Ha; subst. split; [apply replicate_guarded; assumption|]. split; [|exact I].
         intros _. eapply replicate_final; eauto.
     + inversion Ha; subst. split; [exact I|]. split; [discriminate|exact I].
+  - (* replicate while the origin block is deleted *)
+    rewrite replicate_phases_std, delete_phases_std in Ha. unfold std_replicate in Ha.
+    destruct (delete_ops std_delete (fst st) id order) as [dels|] eqn:Hd; [|discriminate].
+    inversion Ha as [Hr]. clear Ha.
+    apply andb_true_iff in Hsafe as [Hif Hni]. apply negb_true_iff in Hni.
+    destruct Hst as [Hsrc Hdst].
+    destruct (repdel_safe U (fst st) (snd st) id sched order dels l ok Hwf Hsrc Hdst Hd Hif Hni Hr) as [G F].
+    split; [exact G|]. split; [exact F|exact I].
 Qed.
 
 Lemma step_sound U st s st' :
-  wf_univ U -> sinv U st -> corr_step U st s = Some st' ->
+  wf_univ U -> sinv U st -> action_safe st (fst (fst (fst (fst s)))) = true -> corr_step U st s = Some st' ->
   sinv U st' /\ pred_step st s = (true, st').
 Proof.
-  intros Hwf Hst Hc. destruct s as [[[[a crash] ret] ops] snaps]. unfold corr_step in Hc.
+  intros Hwf Hst Hsafe Hc. destruct s as [[[[a crash] ret] ops] snaps]. simpl in Hsafe. unfold corr_step in Hc.
   destruct (action_ops U st a) as [[l ok]|] eqn:Ha; [|discriminate].
   set (b := side_get st (action_side a)) in *.
   destruct (list_eqb bop_eqb ops (cut crash l) && list_eqb bucket_eqb snaps (tl (bstates b (cut crash l)))
@@ -98,7 +107,7 @@ Proof.
   inversion Hc; subst st'. clear Hc.
   apply andb_true_iff in Hchk as [Hchk Hret]. apply andb_true_iff in Hchk as [Hops Hsn].
   apply ops_eqb_spec in Hops. apply buckets_eqb_spec in Hsn. apply Bool.eqb_prop in Hret.
-  destruct (action_sound U st a l ok Hwf Hst Ha) as [Hg [Hfin Hmk]]. fold b in Hg, Hfin, Hmk.
+  destruct (action_sound U st a l ok Hwf Hst Hsafe Ha) as [Hg [Hfin Hmk]]. fold b in Hg, Hfin, Hmk.
   assert (Hall : forall b', In b' (bstates b (cut crash l)) -> binv U b').
   { intros b' Hb'. apply (binv_states U b l Hwf (sinv_side U st _ Hst) Hg). apply (cut_states _ _ _ _ Hb'). }
   split.
@@ -114,7 +123,7 @@ Proof.
     assert (Hfull : ret = true -> ok = true /\ cut crash l = l).
     { intros Hr. rewrite Hr in Hret. symmetry in Hret. apply andb_true_iff in Hret as [H1 H2].
       split; [exact H1|]. apply cut_full. destruct (is_cut crash l); [discriminate|reflexivity]. }
-    destruct a as [s id order cid|s id order|s id sz|id]; simpl in *.
+    destruct a as [s id order cid|s id order|s id sz|id|id sched order]; simpl in *.
     + destruct ret; [|reflexivity]. destruct (Hfull eq_refl) as [Hok Hcut]. rewrite Hcut. apply Hfin. exact Hok.
     + apply andb_true_iff. split.
       * destruct (bhas b (id, FDelMark)) eqn:Hm; [|reflexivity].
@@ -123,21 +132,24 @@ Proof.
       * destruct ret; [|reflexivity]. destruct (Hfull eq_refl) as [Hok Hcut]. rewrite Hcut. exact Hfin.
     + destruct ret; [|reflexivity]. destruct (Hfull eq_refl) as [Hok Hcut]. rewrite Hcut. exact Hfin.
     + destruct ret; [|reflexivity]. destruct (Hfull eq_refl) as [Hok Hcut]. rewrite Hcut. apply Hfin. exact Hok.
+    + destruct ret; [|reflexivity]. destruct (Hfull eq_refl) as [Hok Hcut]. rewrite Hcut. apply Hfin. exact Hok.
 Qed.
 
 Lemma steps_sound U : forall steps st,
-  wf_univ U -> sinv U st -> corr_steps U st steps = true -> pred_steps st steps = true.
+  wf_univ U -> sinv U st -> corr_steps U st steps = true -> safe_steps U st steps = true ->
+  pred_steps st steps = true.
 Proof.
-  induction steps as [|s r IH]; intros st Hwf Hst Hc; simpl in *; [reflexivity|].
+  induction steps as [|s r IH]; intros st Hwf Hst Hc Hsf; simpl in *; [reflexivity|].
   destruct (corr_step U st s) as [st'|] eqn:Hs; [|discriminate].
-  destruct (step_sound U st s st' Hwf Hst Hs) as [Hst' Hp]. rewrite Hp. simpl.
+  apply andb_true_iff in Hsf as [Hs1 Hs2].
+  destruct (step_sound U st s st' Hwf Hst Hs1 Hs) as [Hst' Hp]. rewrite Hp. simpl.
   apply IH; assumption.
 Qed.
 
-Lemma corr_implies_pred c : corr_ok c = true -> pred_ok c = true.
+Lemma corr_implies_pred c : corr_ok c = true -> safe_case c = true -> pred_ok c = true.
 Proof.
-  destruct c as [U steps]. simpl. intros H. apply andb_true_iff in H as [Hwf Hc].
-  apply (steps_sound U steps ([], []) (wf_univ_b_spec U Hwf)); [|exact Hc].
+  destruct c as [U steps]. simpl. intros H Hsf. apply andb_true_iff in H as [Hwf Hc].
+  apply (steps_sound U steps ([], []) (wf_univ_b_spec U Hwf)); [|exact Hc|exact Hsf].
   split; apply binv_empty.
 Qed.
 
@@ -148,7 +160,7 @@ Fixpoint run_states (U : univ) (st : state) (acts : list (action * option nat)) 
   match acts with
   | [] => Some []
   | (a, crash) :: r =>
-      match action_ops U st a with
+      match (if action_safe st a then action_ops U st a else None) with
       | None => None
       | Some (l, _) =>
           let b := side_get st (action_side a) in
@@ -164,11 +176,12 @@ Lemma run_states_inv U : forall acts st all,
 Proof.
   induction acts as [|[a crash] r IH]; intros st all Hwf Hst Hr b Hb; simpl in Hr.
   - inversion Hr; subst. contradiction.
-  - destruct (action_ops U st a) as [[l ok]|] eqn:Ha; [|discriminate].
+  - destruct (action_safe st a) eqn:Hsafe; [|discriminate].
+    destruct (action_ops U st a) as [[l ok]|] eqn:Ha; [|discriminate].
     set (b0 := side_get st (action_side a)) in *.
     destruct (run_states U (side_set st (action_side a) (bapply_ops b0 (cut crash l))) r) as [rest|] eqn:Hrest; [|discriminate].
     inversion Hr; subst all. clear Hr.
-    destruct (action_sound U st a l ok Hwf Hst Ha) as [Hg _]. fold b0 in Hg.
+    destruct (action_sound U st a l ok Hwf Hst Hsafe Ha) as [Hg _]. fold b0 in Hg.
     assert (Hall : forall b', In b' (bstates b0 (cut crash l)) -> binv U b').
     { intros b' Hb'. apply (binv_states U b0 l Hwf (sinv_side U st _ Hst) Hg). apply (cut_states _ _ _ _ Hb'). }
     apply in_app_or in Hb as [Hb|Hb]; [apply Hall; exact Hb|].
@@ -251,7 +264,7 @@ Fixpoint model_steps (U : univ) (st : state) (acts : list (action * option nat))
   match acts with
   | [] => Some []
   | (a, crash) :: r =>
-      match action_ops U st a with
+      match (if action_safe st a then action_ops U st a else None) with
       | None => None
       | Some (l, ok) =>
           let b := side_get st (action_side a) in
@@ -264,13 +277,14 @@ Fixpoint model_steps (U : univ) (st : state) (acts : list (action * option nat))
   end.
 
 Lemma model_steps_corr U : forall acts st steps,
-  model_steps U st acts = Some steps -> corr_steps U st steps = true.
+  model_steps U st acts = Some steps -> corr_steps U st steps = true /\ safe_steps U st steps = true.
 Proof.
   induction acts as [|[a crash] r IH]; intros st steps H; simpl in H.
-  - inversion H; subst. reflexivity.
-  - destruct (action_ops U st a) as [[l ok]|] eqn:Ha; [|discriminate].
+  - inversion H; subst. split; reflexivity.
+  - destruct (action_safe st a) eqn:Hsafe; [|discriminate].
+    destruct (action_ops U st a) as [[l ok]|] eqn:Ha; [|discriminate].
     destruct (model_steps U _ r) as [rest|] eqn:Hr; [|discriminate].
-    inversion H; subst steps. clear H. simpl. rewrite Ha.
+    inversion H; subst steps. clear H. simpl. rewrite Ha, Hsafe.
     rewrite (proj2 (ops_eqb_spec _ _) eq_refl), (proj2 (buckets_eqb_spec _ _) eq_refl), Bool.eqb_reflx. simpl.
     apply IH. exact Hr.
 Qed.
@@ -279,9 +293,9 @@ Lemma model_case_ok U acts steps :
   wf_univ_b U = true -> model_steps U ([], []) acts = Some steps ->
   corr_ok (CScen U steps) = true /\ pred_ok (CScen U steps) = true.
 Proof.
-  intros Hwf H. assert (Hc : corr_ok (CScen U steps) = true).
-  { simpl. rewrite Hwf. simpl. eapply model_steps_corr; eauto. }
-  split; [exact Hc|apply corr_implies_pred; exact Hc].
+  intros Hwf H. destruct (model_steps_corr U acts _ steps H) as [H1 H2].
+  assert (Hc : corr_ok (CScen U steps) = true) by (simpl; rewrite Hwf; exact H1).
+  split; [exact Hc|apply corr_implies_pred; [exact Hc|exact H2]].
 Qed.
 
 (* ---- the per-function statements, for the phase orders computed from the source ---- *)
@@ -342,4 +356,46 @@ Lemma replicate_completes_src ph U src dst id om :
   same_content om (bget (bapply_ops dst (replicate_ops ph src dst id)) (id, FMeta)) = true.
 Proof.
   intros Hph. rewrite replicate_phases_std in Hph. inversion Hph; subst ph. apply replicate_final.
+Qed.
+
+(* ---- replication racing with the deletion of the origin block ---- *)
+Lemma replicate_during_delete_safe ph U src dst id sched order dels ops ok :
+  delete_phases = Some ph -> wf_univ U -> binv U src -> binv U dst ->
+  delete_ops ph src id order = Some dels ->
+  index_first order = true -> bhas dst (id, FIndex) = false ->
+  repdel_ops src dst id (combine sched dels) = (ops, ok) ->
+  (forall k, visible_complete (bapply_ops dst (firstn k ops)))
+  /\ (ok = true -> bhas (bapply_ops dst ops) (id, FMeta) = true).
+Proof.
+  intros Hph Hwf Hs Hd Hdel Hi Hn H. rewrite delete_phases_std in Hph. inversion Hph; subst ph.
+  destruct (repdel_safe U src dst id sched order dels ops ok Hwf Hs Hd Hdel Hi Hn H) as [G F].
+  split; [|exact F]. intros k. apply (binv_visible U).
+  apply (binv_states U dst ops Hwf Hd G). apply states_firstn_incl with (k := k). apply states_last.
+Qed.
+
+(* without "index before chunks" (a bucket that lists "chunks/" before "index", as S3 and GCS do)
+   there is a schedule that makes an incomplete block visible in the target: the deleter removes
+   meta.json and chunks/000001 between the replicator's Get of meta.json and its listing of chunks/ *)
+Definition race_U : univ := [(0%N, mkblk [(1%N, 11%Z); (2%N, 7%Z)] 9%Z 0%N)].
+Definition race_acts : list (action * option nat) :=
+  [(AUpload false 0 [1; 2]%N 0, None); (AMark false 0 40, None)].
+Definition race_order : list file := [FChunk 1; FChunk 2; FIndex].
+
+Lemma replicate_delete_race_refuted :
+  exists st ops,
+    sinv race_U st /\ bhas (snd st) (0%N, FIndex) = false
+    /\ action_ops race_U st (ARepDel 0 [1; 1]%nat race_order) = Some (ops, true)
+    /\ visible_complete_b (bapply_ops (snd st) ops) = false
+    /\ index_first race_order = false.
+Proof.
+  destruct (run_states race_U ([], []) race_acts) as [all|] eqn:Hr; [|vm_compute in Hr; discriminate].
+  pose proof (run_states_inv race_U race_acts ([], []) all
+                (wf_univ_b_spec race_U eq_refl) (conj (binv_empty race_U) (binv_empty race_U)) Hr) as Hall.
+  vm_compute in Hr. inversion Hr as [Hall']. clear Hr.
+  set (src := [kv 0 (FChunk 1) (Blob 11); kv 0 (FChunk 2) (Blob 7); kv 0 FDelMark (Blob 40); kv 0 FIndex (Blob 9);
+               kv 0 FMeta (MetaO 0 [(FChunk 1, 11%Z); (FChunk 2, 7%Z); (FIndex, 9%Z); (FMeta, 0%Z)] 0)]).
+  exists (src, []). eexists. split.
+  - split; [|apply binv_empty]. apply Hall. rewrite <- Hall'. unfold src, kv. simpl.
+    repeat (first [left; reflexivity | right]).
+  - split; [reflexivity|]. split; [vm_compute; reflexivity|]. split; vm_compute; reflexivity.
 Qed.
